@@ -62,6 +62,10 @@ type limiter struct {
 	c   cfg
 	now int64
 	rl  ratelimiter.RateLimiter[int]
+	// readDelay makes the limiter's reading of its clock take that long (as when another caller holds its lock); lastRead
+	// is the real instant at which the last reading was delivered
+	readDelay time.Duration
+	lastRead  time.Time
 }
 
 func newLimiter(c cfg, b func(ratelimiter.RateLimiterBuilder[int])) *limiter {
@@ -90,7 +94,13 @@ func newLimiter(c cfg, b func(ratelimiter.RateLimiterBuilder[int])) *limiter {
 			l.rl = ratelimiter.Bursty[int](uint(c.Max), time.Duration(c.Unit))
 		}
 	}
-	ratelimiter.VerifSetStopwatch[int](l.rl, func() time.Duration { return time.Duration(l.now) })
+	ratelimiter.VerifSetStopwatch[int](l.rl, func() time.Duration {
+		if l.readDelay > 0 {
+			time.Sleep(l.readDelay)
+		}
+		l.lastRead = time.Now()
+		return time.Duration(l.now)
+	})
 	return l
 }
 
@@ -755,6 +765,11 @@ func TestBlockingAcquire(t *testing.T) {
 		}
 		defer cancel()
 		invoked := 0
+		// sometimes the limiter gets its clock reading late (another caller held its lock, the goroutine was descheduled):
+		// the wait counts from that reading, not from the moment the call was made
+		if rapid.IntRange(0, 3).Draw(t, "slowClockRead") == 0 {
+			l.readDelay = time.Duration(rapid.SampledFrom([]int{500, 2000}).Draw(t, "readDelayUs")) * time.Microsecond
+		}
 		begin := time.Now()
 		var err error
 		switch api {
@@ -772,6 +787,9 @@ func TestBlockingAcquire(t *testing.T) {
 			_, err = failsafe.NewExecutor[int](l.rl).WithContext(ctx).GetAsync(func() (int, error) { invoked++; return 1, nil }).Get()
 		}
 		elapsed := time.Since(begin)
+		sinceRead := time.Since(l.lastRead)
+		slowRead := l.readDelay > 0
+		l.readDelay = 0
 		scen := map[string]any{"cfg": c.String(), "preload": hist, "api": api, "n": n, "maxWait": mw, "ctx": ctxKind, "t": l.now, "predicted_wait": want, "err": fmt.Sprint(err), "elapsed_ns": elapsed.Nanoseconds()}
 		bad := func(sig, f string, a ...any) {
 			harness.Violation(t, prop, test, sig+":"+kind, scen, "%s api=%s n=%d mw=%d ctx=%s predicted wait %d: %s", c, api, n, mw, ctxKind, want, fmt.Sprintf(f, a...))
@@ -795,6 +813,9 @@ func TestBlockingAcquire(t *testing.T) {
 			m.Acquire(l.now, n, effMW)
 			if elapsed < time.Duration(want) {
 				bad("early-success", "returned nil after %v, before the wait of %v elapsed", elapsed, time.Duration(want))
+			}
+			if slowRead && sinceRead < time.Duration(want) {
+				bad("early-success", "returned nil %v after the limiter read its clock, before the wait of %v it computed from that reading elapsed", sinceRead, time.Duration(want))
 			}
 			if (api == "Run" || api == "GetAsync") && invoked != 1 {
 				bad("granted-not-invoked", "function invoked %d times", invoked)
